@@ -155,4 +155,21 @@ theorem used_fragments_iff (frags : List (List Nat)) (ops : List (List Nat)) (j 
 
 example : unusedCount [[1], [], []] [[0]] = 1 := by decide
 
+/-- PER OPERATION (spec 5.8.3–5.8.5 speak of "each operation … including fragments transitively
+    spread by that operation"): with the per-operation `validated_fragments` set, the fragment
+    definitions validated against an operation's own variable definitions are exactly the fragments
+    that operation reaches — for every operation of the document, whatever the others spread.
+    Tied by c17.perop (one UndefinedVariable diagnostic per operation and reachable fragment). -/
+theorem fragments_validated_per_operation (frags : List (List Nat)) (ops : List (List Nat))
+    (op : List Nat) (hop : op ∈ ops) (j : Nat) :
+    collectUsed frags [op] ∈ validatedPerOperation frags ops ∧
+      (j ∈ collectUsed frags [op] ↔ Used frags [op] j) :=
+  ⟨List.mem_map.mpr ⟨op, hop, rfl⟩, used_fragments_iff frags [op] j⟩
+
+/-- a document-wide set is a different function: two operations spreading the same fragment give two
+    validations, one per operation, while the fragment is in the document-wide walk only once -/
+theorem validated_per_operation_not_document_wide :
+    validationCount [[]] [[0], [0]] = 2 ∧ (collectUsed [[]] [[0], [0]]).length = 1 := by decide
+
+
 end Apollo.C17
